@@ -101,5 +101,7 @@ def register(glob):
     mk("affinity_2inst_two_executions", 2, 0, 2, ("thorough",), 300, 2400)
     mk("affinity_2inst_sync_child", 2, 1, 1, ("quick", "thorough"), 300, 900)
     mk("affinity_3inst_parallel", 3, 0, 1, ("thorough",), 300, 1800)
+    scn.register(glob, {"C19", "C03"}, ["poison_midrun"])
+    glob["poison_midrun"].__module__ = modname
     if "ASSUMPTIONS" in glob:
         glob["ASSUMPTIONS"].append(ASSUMPTION)
